@@ -76,6 +76,15 @@ func (oracleC09) Step(x *OCtx, t *Trans) []Violation {
 				add("only-allowed-state-transitions", ps+"->"+qs, fmt.Sprintf("context %s moved %s -> %s in a %s step", name, ps, qs, kind))
 			}
 		}
+		// a running context whose batch is due in this block either gets it (issued or skipped) or is paused for funds
+		if kind == "E" && ps == "running" {
+			if h, ok := t.Pre.NewH[id]; ok && h == H {
+				x.Wit("C09:running-context-with-batch-due")
+				if qc.BatchCounter == pc.BatchCounter && qs == "running" {
+					add("due-batch-is-issued-skipped-or-context-paused", name, fmt.Sprintf("running context %s had a batch due at height %d: no batch, still running", name, H))
+				}
+			}
+		}
 		if ps == "completed" {
 			// completed is final: no update of its terms, no new batch
 			if !reflect.DeepEqual(pc.Providers, qc.Providers) || !pc.ServiceFeeCap.IsEqual(qc.ServiceFeeCap) || pc.Timeout != qc.Timeout ||
